@@ -13,3 +13,22 @@ package ipfamily
 //@   requires cidr != nil
 //@   ensures result == ite(net.is4(cidr.IP), IPv4, IPv6)
 //@   modifies nothing
+
+// FamilyOfStrings: the case table of ForAddresses over net.ParseIP.
+//@ ufun parseIP(string) net.IP
+//@ pred FamOf(ips []string, f Family, ok bool) :=
+//@     ite(len(ips) == 1,
+//@         ite(parseIP(ips[0]) == nil, !ok && f == Unknown, ok && f == ite(net.is4(parseIP(ips[0])), IPv4, IPv6)),
+//@     ite(len(ips) == 2,
+//@         ite(parseIP(ips[0]) == nil || parseIP(ips[1]) == nil, !ok && f == Unknown,
+//@             ite(net.is4(parseIP(ips[0])) == net.is4(parseIP(ips[1])), !ok && f == Unknown, ok && f == DualStack)),
+//@         !ok && f == Unknown))
+//@ func ForAddresses
+//@   ensures FamOf(ips, result0, result1 == nil)
+//@   modifies fresh []interface{}
+
+//@ func ForAddressesIPs
+//@   ensures result1 == nil ==> (result0 == IPv4 || result0 == IPv6 || result0 == DualStack)
+//@   ensures result1 == nil ==> ((result0 == DualStack) == (len(ips) == 2))
+//@   modifies fresh []string, fresh []interface{}
+//@   loop 1 invariant (ipsStrings == nil || fresh(ipsStrings)) && len(ipsStrings) == iter
